@@ -319,10 +319,16 @@ def impl_crash(e):
 
     tb = traceback.extract_tb(e.__traceback__)
     root = os.path.realpath(os.path.join(os.environ.get("VERIF_REPO", "/repo"), "asyncfix")) + os.sep
-    if not tb or not os.path.realpath(tb[-1].filename).startswith(root):
-        return None
-    return "raised " + type(e).__name__ + ": " + str(e)[:300] + " | " + " <- ".join(
-        f"{os.path.basename(f.filename)}:{f.lineno}:{f.name}" for f in reversed(tb[-6:]))
+    where = " | " + " <- ".join(f"{os.path.basename(f.filename)}:{f.lineno}:{f.name}" for f in reversed(tb[-6:]))
+    if tb and os.path.realpath(tb[-1].filename).startswith(root):
+        return "raised " + type(e).__name__ + ": " + str(e)[:300] + where
+    if isinstance(e, (OSError, RuntimeError, MemoryError, ImportError, SyntaxError)):
+        return None         # infrastructure: driver / file system / build - exit 2
+    # The harness is validated on the unchanged tree (many seeds, both tiers) without ever raising. When its own
+    # bookkeeping trips over a value the implementation returned (None where a string is always returned, a
+    # missing key, ...), the implementation has left the behaviour the comparison is written for: the tie can no
+    # longer be evaluated, which is reported like any other broken correspondence - not as an infrastructure error.
+    return "harness could not evaluate the implementation's answer: " + type(e).__name__ + ": " + str(e)[:300] + where
 
 
 def tail_errors(log):
